@@ -369,6 +369,15 @@ TClientTx ==
     /\ (e.reverted => e.after = e.before)
     /\ (~e.reverted => (Len(e.kinds) >= 1 /\ e.kinds[Len(e.kinds)] = "ScriptResult"))
     /\ UNCHANGED vm
+\* C28 / C31: the script `RET $one` executed by a client that has just run another transaction (which may have ended inside a called
+\* contract, by revert or panic) ends as on a fresh instance: [Return(1), ScriptResult(Success)]
+TClientFollow ==
+    /\ IsEv(l, "ClientFollow")
+    /\ Len(e.rc) = 2
+    /\ e.rc[1].kind = "Return" /\ e.rc[1].val = "1"
+    /\ e.rc[2].kind = "ScriptResult" /\ e.rc[2].result = "Success"
+    /\ UNCHANGED vm
+
 \* C28: the receipt list is bounded; hitting the bound is a panic whose last two receipts are Panic + ScriptResult
 TRunSummary ==
     /\ IsEv(l, "RunSummary")
@@ -432,7 +441,7 @@ TPredCheck ==
     /\ \A i \in 1..Len(e.acc) : e.acc[i].table \notin ContractTables
     /\ (PredRefused => (e.ok = FALSE /\ e.reason = "ContractInstructionNotAllowed"))
     /\ UNCHANGED vm
-TrNext == \/ ((TPredCheck \/ TInit \/ TMemPoke \/ TPoke \/ TStepExec \/ TStEnd \/ TStDump \/ TStCold \/ TTwin \/ TClientTx \/ TRunSummary) /\ UNCHANGED refs /\ l' = l + 1)
+TrNext == \/ ((TPredCheck \/ TInit \/ TMemPoke \/ TPoke \/ TStepExec \/ TStEnd \/ TStDump \/ TStCold \/ TTwin \/ TClientTx \/ TClientFollow \/ TRunSummary) /\ UNCHANGED refs /\ l' = l + 1)
           \/ ((TSeg \/ TStepRun \/ TFinal \/ TReplica \/ TReplicaReceipts \/ TBpRun) /\ l' = l + 1)
 TrSpec == TrInit /\ [][TrNext]_trVars
 =============================================================================
